@@ -170,18 +170,49 @@ package xsync
 
 // the channel of the current cell is open: it is closed exactly by the Set that replaces the cell
 //@ pred wRep(w) = (&w.p).gv == nil || ((&w.p).gv.c != nil && !chclosed((&w.p).gv.c) && alloc((&w.p).gv))
+// cells ever published in w.p (ghost); a published cell is never modified again
+//@ ghost Watchable.pub set[*watchableInner[T]]
+//@ pred wInv(w) = !w.pub[nil] && ((&w.p).gv != nil ==> w.pub[(&w.p).gv]) && (forall cell *watchableInner[T] {w.pub[cell]} :: w.pub[cell] ==> alloc(cell) && cell.c != nil)
 
 //@ func Watchable.Set
 //@   props C18
-//@   requires wRep(w)
-//@   modifies (&w.p).gv, chclosed((&w.p).gv.c)
-//@   ensures wRep(w) && (&w.p).gv != nil && fresh((&w.p).gv) && (&w.p).gv.t == t
+//@   requires wRep(w) && wInv(w)
+//@   modifies (&w.p).gv, chclosed((&w.p).gv.c), w.pub
+//@   ghost w.pub := store(old(w.pub), (&w.p).gv, true)
+//@   ensures wRep(w) && wInv(w) && (&w.p).gv != nil && fresh((&w.p).gv) && (&w.p).gv.t == t
 //@   ensures old((&w.p).gv) != nil ==> chclosed(old((&w.p).gv.c))
 
+// Value is verified against an interfering environment: before each of its atomic steps other
+// goroutines may have Set the watchable any number of times (the current cell and the set of published
+// cells are havocked under the rely condition: a non-nil cell never becomes nil again, published cells
+// stay published; reported as havoc/assume). `same` records that the environment did nothing.
 //@ func Watchable.Value
 //@   props C18
-//@   requires wRep(w)
-//@   modifies (&w.p).gv
-//@   ensures wRep(w) && (&w.p).gv != nil && result1 == (&w.p).gv.c && !chclosed(result1)
-//@   ensures old((&w.p).gv) == nil ==> result0 == zero(T)
-//@   ensures old((&w.p).gv) != nil ==> result0 == old((&w.p).gv.t) && (&w.p).gv == old((&w.p).gv)
+//@   requires wRep(w) && wInv(w)
+//@   modifies (&w.p).gv, w.pub
+//@   ghostinit same := true
+//@   ghostinit prev := (&w.p).gv
+//@   ghostinit ppub := w.pub
+//@   ghostinit lin := (&w.p).gv
+//@   before call Load[0]: ghost prev := (&w.p).gv
+//@   before call Load[0]: ghost ppub := w.pub
+//@   before call Load[0]: havoc (&w.p).gv, w.pub
+//@   before call Load[0]: assume wInv(w) && (prev != nil ==> (&w.p).gv != nil) && (forall cell *watchableInner[T] {ppub[cell]} :: ppub[cell] ==> w.pub[cell])
+//@   before call Load[0]: ghost same := same && (&w.p).gv == prev && w.pub == ppub
+//@   after call Load[0]: ghost lin := callresult
+//@   before call CompareAndSwap[0]: ghost prev := (&w.p).gv
+//@   before call CompareAndSwap[0]: ghost ppub := w.pub
+//@   before call CompareAndSwap[0]: havoc (&w.p).gv, w.pub
+//@   before call CompareAndSwap[0]: assume wInv(w) && (prev != nil ==> (&w.p).gv != nil) && (forall cell *watchableInner[T] {ppub[cell]} :: ppub[cell] ==> w.pub[cell]) && !w.pub[emptyInner]
+//@   before call CompareAndSwap[0]: ghost same := same && (&w.p).gv == prev && w.pub == ppub
+//@   after call CompareAndSwap[0]: ghost w.pub := callresult ? store(w.pub, emptyInner, true) : w.pub
+//@   after call CompareAndSwap[0]: ghost lin := callresult ? emptyInner : nil
+//@   before call Load[1]: ghost prev := (&w.p).gv
+//@   before call Load[1]: ghost ppub := w.pub
+//@   before call Load[1]: havoc (&w.p).gv, w.pub
+//@   before call Load[1]: assume wInv(w) && (prev != nil ==> (&w.p).gv != nil) && (forall cell *watchableInner[T] {ppub[cell]} :: ppub[cell] ==> w.pub[cell])
+//@   before call Load[1]: ghost same := same && (&w.p).gv == prev && w.pub == ppub
+//@   after call Load[1]: ghost lin := callresult
+//@   ensures wInv(w) && (&w.p).gv != nil
+//@   ensures lin != nil && w.pub[lin] && result0 == lin.t && result1 == lin.c
+//@   ensures same ==> wRep(w) && result1 == (&w.p).gv.c && !chclosed(result1) && (old((&w.p).gv) == nil ==> result0 == zero(T)) && (old((&w.p).gv) != nil ==> result0 == old((&w.p).gv.t) && (&w.p).gv == old((&w.p).gv))
